@@ -68,9 +68,9 @@ type caseRun struct {
 }
 
 func grpTerm(poly int, ep *Epoch, me int) string {
-	mem := make([]string, ep.N)
-	for i := range mem {
-		mem[i] = fmt.Sprint(i)
+	mem := make([]string, len(ep.Members))
+	for i, m := range ep.Members {
+		mem[i] = fmt.Sprint(m)
 	}
 	meIdx := me
 	if me >= ep.N {
@@ -300,8 +300,8 @@ func (c *caseRun) term() string {
 		emit.List(evs), emit.List(obs))
 }
 
-func newCase(sch *crypto.Scheme, n, thr, me int, period, genesis, now int64, store, desc string, maxRounds int) (*caseRun, error) {
-	w, err := NewWorld(sch, n, thr, me, period, genesis, now, store)
+func newCase(sch *crypto.Scheme, n, thr, me int, period, genesis, now int64, store, desc string, maxRounds int, vacant ...int) (*caseRun, error) {
+	w, err := NewWorld(sch, n, thr, me, period, genesis, now, store, vacant...)
 	if err != nil {
 		return nil, err
 	}
@@ -341,6 +341,28 @@ func (c *caseRun) advance(d int64) {
 	}
 }
 
+// pickVacant chooses the share indices that no member holds in a group of `members` members
+// containing index me: half of the groups have none (contiguous indices 0..n-1), the others one or
+// two gaps as left by participants that did not make it into QUAL.
+func pickVacant(rng *rand.Rand, members, me int) []int {
+	g := []int{0, 0, 1, 2}[rng.Intn(4)]
+	if members+g <= me { // me must be one of the dealt indices
+		g = 0
+	}
+	var out []int
+	for len(out) < g {
+		v := rng.Intn(members + g)
+		dup := v == me
+		for _, o := range out {
+			dup = dup || o == v
+		}
+		if !dup {
+			out = append(out, v)
+		}
+	}
+	return out
+}
+
 // genScenario drives a random scenario through the node under test.
 func genScenario(c *caseRun, rng *rand.Rand, steps int) {
 	w := c.w
@@ -375,7 +397,7 @@ func genScenario(c *caseRun, rng *rand.Rand, steps int) {
 					sh[1] = 2
 				}
 			}
-			c.do(Event{Kind: "transition", From: sh[0], Claim: sh[1], Round: cur + 2 + uint64(rng.Intn(2))})
+			c.do(Event{Kind: "transition", From: sh[0], Claim: sh[1], Round: cur + 2 + uint64(rng.Intn(2)), Vacant: pickVacant(rng, sh[0], w.Me)})
 			transitioned = true
 			continue
 		}
@@ -444,7 +466,7 @@ func genScenario(c *caseRun, rng *rand.Rand, steps int) {
 			// complete the round honestly: thr-1 other members deliver valid partials
 			cnt := 0
 			for j := 0; j < n && cnt < w.Epochs[live].Thr; j++ {
-				if j == w.Me {
+				if j == w.Me || !w.Epochs[live].IsMember(j) {
 					continue
 				}
 				c.do(Event{Kind: "part", From: j, Claim: j, Round: w.Head() + 1, Prev: "ref", Ep: live})
@@ -469,11 +491,20 @@ func Run(out string, seed int64, tier string) error {
 	for i := 0; i < ncases; i++ {
 		sch, _ := crypto.SchemeFromName(schemes[i%len(schemes)])
 		sh := shapes[rng.Intn(len(shapes))]
-		me := rng.Intn(sh[0])
+		vac := pickVacant(rng, sh[0], 0)
+		me := rng.Intn(sh[0] + len(vac))
+		for bad := true; bad; {
+			bad = false
+			for _, v := range vac {
+				if v == me {
+					me, bad = (me+1)%(sh[0]+len(vac)), true
+				}
+			}
+		}
 		store := []string{"memdb", "bolt"}[rng.Intn(2)]
 		period := int64(3 + rng.Intn(4))
-		desc := fmt.Sprintf("scheme=%s n=%d thr=%d me=%d store=%s period=%d", sch.Name, sh[0], sh[1], me, store, period)
-		c, err := newCase(sch, sh[0], sh[1], me, period, 1000, 1000-int64(1+rng.Intn(5)), store, desc, steps+8)
+		desc := fmt.Sprintf("scheme=%s n=%d thr=%d me=%d vacant=%v store=%s period=%d", sch.Name, sh[0], sh[1], me, vac, store, period)
+		c, err := newCase(sch, sh[0], sh[1], me, period, 1000, 1000-int64(1+rng.Intn(5)), store, desc, steps+8, vac...)
 		if err != nil {
 			return err
 		}
@@ -489,6 +520,9 @@ func Run(out string, seed int64, tier string) error {
 				k = "part/" + s.ev.Prev + "/" + s.ev.Mut
 				if s.ev.Claim != s.ev.From {
 					k += "/forgedidx"
+				}
+				if s.ev.Ep < len(c.w.Epochs) && !c.w.Epochs[s.ev.Ep].IsMember(s.ev.Claim) {
+					k += "/vacantidx"
 				}
 				if s.obs.Rejected {
 					k += "/rejected"
@@ -513,7 +547,7 @@ func Run(out string, seed int64, tier string) error {
 		}
 		c.w.Close()
 	}
-	rep.Rule = "random scenarios on one real beacon.Handler inside a simulated group (real threshold BLS): clock advances (<= one round boundary each), well-formed partials around head/current round, forged partials (bit-flip, truncated, too short, signed for another message, forged or non-member index, junk/empty previous signature), honest completion of rounds, sync on/off, stop/restart; distinct = distinct (event kind, round offset, prev kind, mutation, signer, claimed index, outcome) per case; every counted event has an observable outcome compared with the model"
+	rep.Rule = "random scenarios on one real beacon.Handler inside a simulated group (real threshold BLS): clock advances (<= one round boundary each), well-formed partials around head/current round, forged partials (bit-flip, truncated, too short, signed for another message, forged or non-member index, VALID partials of share holders that are not group members (vacant indices inside the index range, as left by a DKG that excluded a participant from QUAL), junk/empty previous signature), honest completion of rounds, sync on/off, stop/restart; distinct = distinct (event kind, round offset, prev kind, mutation, signer, claimed index, outcome) per case; every counted event has an observable outcome compared with the model"
 	if err := rep.Shard(out, "cases_node", []string{"From DV Require Import Model.Node Corr.NodeCorr."}, "ncase", "mismatches", lines, descr, 40); err != nil {
 		return err
 	}
